@@ -23,7 +23,7 @@ for dp, dn, fs in os.walk(os.path.join(root, "happysimulator")):
             units[rel] = sorted({q for q, _ in localnames.units(tree)})
             from hsverif import normalize
             sp = {q: normalize.spelling_record(fn) for q, fn in localnames.units(tree)}
-            sp = {q: v for q, v in sp.items() if v["cmp"] or v["aug"] or v["if"]}
+            sp = {q: v for q, v in sp.items() if v["cmp"] or v["aug"] or v["if"] or v["mm"]}
             if sp:
                 spell[rel] = sp
 out["__units__"] = units
